@@ -408,6 +408,30 @@ seed("C17", "cleanup-on-every-connection", "the temp-file clean-up also runs fro
 seed("C13", "edge-pixels-minimum-one", "the loaded edge-pixels setting is raised to at least 1", ["C13.B1"],
      ("motion/motionconfig.go", "func validateConfig(*config.ThermalMotion) error {\n\t// TODO\n", "func validateConfig(conf *config.ThermalMotion) error {\n\tif conf.EdgePixels < 1 {\n\t\tconf.EdgePixels = 1\n\t}\n"))
 
+# ---- round-4 obligations
+seed("C01", "refused-start-returns-before-move", "a refused start returns from process before the ring is advanced", ["C01.O1"],
+     (MP, "\t\t} else if err := mp.canStartWriting(); err != nil {\n\t\t\tmp.log.Printf(\"Recording not started: %v\", err)\n", "\t\t} else if err := mp.canStartWriting(); err != nil {\n\t\t\tmp.log.Printf(\"Recording not started: %v\", err)\n\t\t\treturn\n"))
+seed("C02", "pretrigger-needs-three-frames", "the pre-trigger history is skipped unless it holds at least three frames", ["C02.P2"],
+     (MP, "\tii := 0\n\n\t// it never writes the current frame as this will be written later\n", "\tii := 0\n\tif len(frames) < 3 {\n\t\treturn nil\n\t}\n\n\t// it never writes the current frame as this will be written later\n"))
+seed("C13", "badframe-keeps-flag-on-stop-error", "stopRecording keeps isRecording when the recorder's stop fails", ["C13.B2"],
+     (MP, "\terr := mp.recorder.StopRecording()\n\n\tmp.framesWritten = 0", "\terr := mp.recorder.StopRecording()\n\tif err != nil {\n\t\treturn err\n\t}\n\n\tmp.framesWritten = 0"))
+seed("C14", "marker-only-while-recording-frames", "the clear marker is honoured only after the first frame", ["C14.M2"],
+     ("cmd/thermal-recorder/main.go", "\t\tif message == clearBuffer {", "\t\tif message == clearBuffer && totalFrames > 0 {"))
+seed("C16", "badframe-advances-ring", "a rejected frame advances the pre-trigger ring", ["C16.R5"],
+     (MP, "\t\tmp.stopConstantRecorder()\n\t\treturn err\n", "\t\tmp.stopConstantRecorder()\n\t\tmp.frameLoop.Move()\n\t\treturn err\n"))
+seed("C17", "test-sink-is-continuous-recorder", "handleConn passes the continuous recorder as the test-recording sink too", ["C17.V4"],
+     ("cmd/thermal-recorder/main.go", "\t\tconstantRecorder,\n\t\tNewCPTVFileRecorder(conf, headerInfo, headerInfo.Brand(), headerInfo.Model(), headerInfo.CameraSerial(), headerInfo.Firmware()),\n\t)", "\t\tconstantRecorder,\n\t\tconstantRecorder,\n\t)"))
+seed("C12", "test-sink-is-continuous-recorder", "handleConn passes the continuous recorder as the test-recording sink too", ["C12.Y5"],
+     ("cmd/thermal-recorder/main.go", "\t\tconstantRecorder,\n\t\tNewCPTVFileRecorder(conf, headerInfo, headerInfo.Brand(), headerInfo.Model(), headerInfo.CameraSerial(), headerInfo.Firmware()),\n\t)", "\t\tconstantRecorder,\n\t\tconstantRecorder,\n\t)"))
+seed("C15", "snapshot-start-without-background", "the test recording is started with a nil background", ["C15.A6"],
+     (MP, "mp.snapshotRecorder.StartRecording(mp.motionDetector.background, 0)", "mp.snapshotRecorder.StartRecording(nil, 0)"))
+seed("C11", "continuous-start-passes-threshold-as-background-flag", "the continuous recording is started with the live threshold instead of 0", ["C11.H1"],
+     (MP, "mp.constantRecorder.StartRecording(mp.motionDetector.background, 0)", "mp.constantRecorder.StartRecording(mp.motionDetector.background, mp.motionDetector.tempThresh)"))
+seed("C18", "reader-nonblocking-pool-receive", "the reader allocates a buffer when the pool is empty", ["C18.W3"],
+     ("cmd/thermal-writer/main.go", "\t\tframe := <-spentFrames\n", "\t\tvar frame []byte\n\t\tselect {\n\t\tcase frame = <-spentFrames:\n\t\tdefault:\n\t\t\tframe = make([]byte, header.FrameSize())\n\t\t}\n"))
+seed("C20", "emit-through-printf", "the limiter emits through log.Printf(s)", ["C20.G1"],
+     ("loglimiter/loglimiter.go", "\tlog.Print(s)\n", "\tlog.Printf(s)\n"))
+
 here = os.path.dirname(os.path.abspath(__file__))
 for pid, name, d in S:
     os.makedirs(os.path.join(here, pid), exist_ok=True)
